@@ -6,6 +6,10 @@ instance / a class / a base class, tabular or not) go through msdm (harness/impl
   subtask     : PlanToSubgoalOption.sub_task
   run         : Option.run_on with step limits around the boundary
   smdp        : SemiMarkovDecisionProcess outcome distributions / marginals / primitive actions
+  used        : multi-step: the base object is USED first (cached matrices, absorbing vector, reachable set
+                touched, planned on with ValueIteration), then MDPs are derived from it; their functional
+                components, tabular views and planning result are compared (half of the bases of the other
+                kinds are used first as well)
 and through the Gallina model coq/model/Option.v (vm_compute inside coqc) on the same inputs; the
 model is driven by the choices the implementation's own recorded roll-outs made.  Besides the
 model-vs-implementation comparison each case is checked against the property's clauses directly
@@ -84,6 +88,17 @@ Definition dump (o : obj) (n nA : nat) :=
    match getattr o "discount_rate" with Some (VNum g) => Some (zq g) | _ => None end,
    match getattr o "state_list" with Some (VNats l) => Some l | _ => None end,
    match getattr o "action_list" with Some (VNats l) => Some l | _ => None end).
+Definition q3 (m : list (list (list Q))) := map (map (map zq)) m.
+Definition dump_views (fuel : nat) (o : option obj) (n nA : nat) :=
+  match o with
+  | Some o => Some (dump o n nA,
+      (match view_tf o with Some (TQ3 m) => Some (q3 m) | _ => None end,
+       match view_rf o with Some (TQ3 m) => Some (q3 m) | _ => None end,
+       match view_am o with Some (TB2 m) => Some m | _ => None end,
+       match view_absvec o with Some (TB1 v) => Some v | _ => None end,
+       match view_s0 o with Some (TQ1 v) => Some (map zq v) | _ => None end,
+       match view_reachable fuel o with Some (TN1 v) => Some v | _ => None end))
+  | None => None end.
 Definition dump_opt (o : option obj) (n nA : nat) := match o with Some o => Some (dump o n nA) | None => None end.
 Definition dsim (r : sim) := (map (fun st => (s_state st, s_action st, s_next st, zq (s_reward st))) (steps r), final r).
 Definition lstream (l : list (nat * nat)) : stream := fun t => nth t l (0%nat, 0%nat).
@@ -153,9 +168,9 @@ def gen_tables(rng, nmax, n=None, nA=None):
 GAMMAS = ["1/2", "9/10", "1"]
 
 
-def gen_base(rng, nmax, list_actions=False):
+def gen_base(rng, nmax, list_actions=False, used=False):
     T = gen_tables(rng, nmax)
-    tabular = rng.random() < .7
+    tabular = used or rng.random() < .7
     style = "quick" if rng.random() < .3 else "table"
     if style == "quick":
         g = {"inst": rng.choice(GAMMAS), "cls0": None, "cls1": None}
@@ -173,6 +188,7 @@ def gen_base(rng, nmax, list_actions=False):
             rng.shuffle(al)
         lists = {"where": "inst" if style == "quick" else rng.choice(["inst", "cls"]), "state_list": sl, "action_list": al}
     return {"tables": T, "tabular": tabular, "style": style, "gammas": g, "lists": lists,
+            "touch": used or rng.random() < .5,      # the base object is USED (caches filled) before anything is derived from it
             "actions_as": "list" if list_actions else rng.choice(["list", "tuple"])}
 
 
@@ -206,6 +222,28 @@ def gen_subtask(rng, tier):
     maxr = rng.choice([None, "0", "-1", "-1/2", "1", "-3", "2"])
     return {"kind": "subtask", "base": base, "initial_states": initial, "subgoals": subgoals,
             "include": rng.random() < .5, "maxr": maxr}
+
+
+def gen_used(rng, tier):
+    """multi-step scenario: base built, its cached views touched and planned on, THEN derived MDPs"""
+    base = gen_base(rng, 4, used=True)
+    T = base["tables"]
+    n = T["n"]
+    alt = gen_tables(rng, 4, n=n, nA=T["nA"])
+    sl, al = list(range(n)), list(range(T["nA"]))
+    rng.shuffle(sl)
+    rng.shuffle(al)
+    alt["state_list"], alt["action_list"] = sl, al
+    derive = []
+    for keys in (["is_absorbing"], ["reward"], rng.sample(COMPONENTS, rng.randint(1, 5))):
+        keys = list(keys)
+        if rng.random() < .3:
+            keys += rng.choice([["state_list"], ["action_list"], ["state_list", "action_list"]])
+        derive.append({"how": "augment", "keys": keys})
+    st = gen_subtask(rng, tier)
+    derive.append({"how": "sub_task", "initial_states": [x for x in st["initial_states"] if x < n] or [0],
+                   "subgoals": sorted({x % n for x in st["subgoals"]}), "include": st["include"], "maxr": st["maxr"]})
+    return {"kind": "used", "base": base, "alt": alt, "derive": derive}
 
 
 def gen_option(rng, T, max_steps, term_p=.4):
@@ -479,6 +517,107 @@ class Checker:
         if not ok or norm_model_dump(m) != sub_i:
             self.violation("C15:sub_task:model-differs", {"case": case, "impl": sub_i, "model": norm_model_dump(m) if ok else None},
                            found=bool(bad), once_key="m")
+
+    # ---- used base (multi-step) ---------------------------------------------
+    @staticmethod
+    def py_views(d):
+        """tabular views recomputed (floats) from a derived MDP's OWN functional dump"""
+        sl, al = d["state_list"], d["action_list"]
+        def p(s, a, ns):
+            return dict(d["trans"][s][a]).get(ns, 0.0) if a in d["actions"][s] else 0.0
+        tf = [[[p(s, a, ns) for ns in sl] for a in al] for s in sl]
+        rf = [[[d["rew"][s][a][ns] if p(s, a, ns) != 0 else 0.0 for ns in sl] for a in al] for s in sl]
+        am = [[a in d["actions"][s] for a in al] for s in sl]
+        absvec = []
+        for i, s in enumerate(sl):
+            loop = all(tf[i][j][i] == 1 or not am[i][j] for j in range(len(al))) and any(am[i])
+            zero = all(x == 0 for row in rf[i] for x in row)
+            absvec.append((loop and zero) or d["abs"][s])
+        s0 = [dict(d["init"]).get(s, 0.0) for s in sl]
+        return {"tf": tf, "rf": rf, "am": am, "absvec": absvec, "s0": s0}
+
+    @staticmethod
+    def norm_views(v):
+        out = {}
+        for k, x in v.items():
+            if isinstance(x, dict) and "error" in x:
+                out[k] = "ERR"
+            elif k in ("tf", "rf"):
+                out[k] = [[[fl(y) for y in r] for r in row] for row in x]
+            elif k == "s0":
+                out[k] = [fl(y) for y in x]
+            else:
+                out[k] = x
+        return out
+
+    def check_used(self, case, res, vals):
+        if isinstance(vals, vlib.CoqError):
+            self.violation("C15:coq-evaluation-failed", {"case": case, "error": str(vals)[:800]}, found=False)
+            return
+        base_i = norm_impl_dump(res["base"])
+        alt = alt_dump(case["alt"])
+        for d, rep, mv in zip(case["derive"], res["derived"], vals):
+            self.bump("used_evaluations")
+            detail = {"case": case, "derive": d}
+            if "raised" in rep:
+                self.violation("C15:used-base:raises:" + rep["raised"].split(":")[0], dict(detail, impl=rep), found=True, once_key="r")
+                continue
+            d_i = norm_impl_dump(rep)
+            v_i = self.norm_views(rep["views"])
+            clause = None
+            # (1) the functional interface of the derived MDP (property, on the implementation alone)
+            if d["how"] == "augment":
+                for k in COMPONENTS + ["discount_rate", "state_list", "action_list"]:
+                    dk = KEY2DUMP[k]
+                    want = alt[dk] if k in d["keys"] else base_i[dk]
+                    if d_i[dk] != want:
+                        clause = "component %s of the MDP derived from a used base is not the %s" % (k, "override" if k in d["keys"] else "base MDP's")
+                        break
+            elif d_i["discount"] != base_i["discount"] or d_i["trans"] != base_i["trans"]:
+                clause = "sub-task of a used base does not keep the base discount / dynamics"
+            # (2) its tabular views are those of ITS OWN components, not the base's cached ones
+            if clause is None:
+                want_v = self.py_views(d_i)
+                for k in ("tf", "rf", "am", "absvec", "s0"):
+                    if v_i[k] != want_v[k]:
+                        clause = "tabular view %s of the derived MDP is not computed from its own components" % k
+                        break
+            # (3) planning on it = planning on a brand-new MDP with the same components
+            if clause is None:
+                if isinstance(rep["plan"], dict) and "error" in rep["plan"] or isinstance(rep["plan_fresh_equivalent"], dict) and "error" in rep["plan_fresh_equivalent"]:
+                    if rep["plan"] != rep["plan_fresh_equivalent"]:
+                        clause = "planning on the derived MDP fails differently from planning on a fresh equivalent MDP"
+                elif rep["plan"] != rep["plan_fresh_equivalent"]:
+                    clause = "planning result on the derived MDP differs from the one on a fresh MDP with the same components"
+            if clause:
+                self.violation("C15:used-base:" + clause, dict(detail, clause=clause, impl=rep, base_views=res["base_views"]), found=True, once_key=clause)
+            else:
+                self.bump("used_property_held")
+                if v_i["absvec"] != self.norm_views(res["base_views"])["absvec"] or v_i["rf"] != self.norm_views(res["base_views"])["rf"]:
+                    self.bump("used_views_differ_from_base_cache")
+            # (4) the model
+            ok, m = some(mv)
+            okm = ok
+            if ok:
+                md = norm_model_dump(m[:8])
+                names = ["tf", "rf", "am", "absvec", "s0", "reach"]
+                mviews = {}
+                for nm, x in zip(names, m[8]):
+                    okx, y = some(x)
+                    if not okx:
+                        mviews[nm] = "ERR"
+                    elif nm in ("tf", "rf"):
+                        mviews[nm] = [[[float(z) for z in r] for r in row] for row in y]
+                    elif nm == "s0":
+                        mviews[nm] = [float(z) for z in y]
+                    elif nm == "reach":
+                        mviews[nm] = sorted(y)
+                    else:
+                        mviews[nm] = y
+                okm = md == d_i and mviews == v_i
+            if not okm:
+                self.violation("C15:used-base:model-differs", dict(detail, impl={"dump": d_i, "views": v_i}, model=str(mv)[:3000]),
+                               found=bool(clause), once_key="m")
 
     # ---- run ------------------------------------------------------------
     @staticmethod
@@ -771,6 +910,18 @@ def terms_for(case, res):
         ks = coqlist(coqlist(coqstr(k) for k in keys) for keys in case["subsets"])
         return ["let b := %s in let A := %s in map (fun ks => dump_opt (augment b (sel_ov A %s %s ks)) %s %s) %s" % (
             b, tables_lit(alt), natlist(alt["state_list"]), natlist(alt["action_list"]), nat(n), nat(nA), ks)]
+    if case["kind"] == "used":
+        alt = case["alt"]
+        fuel = nat(2 * n + 6)
+        items = []
+        for d in case["derive"]:
+            if d["how"] == "augment":
+                items.append("dump_views %s (augment b (sel_ov A %s %s %s)) %s %s" % (
+                    fuel, natlist(alt["state_list"]), natlist(alt["action_list"]), coqlist(coqstr(k) for k in d["keys"]), nat(n), nat(nA)))
+            else:
+                so = "(mkSubgoal %s %s %s %s)" % (natlist(d["initial_states"]), natlist(d["subgoals"]), vlib.b(d["include"]), oq_lit(d["maxr"]))
+                items.append("dump_views %s (sub_task b %s) %s %s" % (fuel, so, nat(n), nat(nA)))
+        return ["let b := touch %s %s in let A := %s in %s" % (fuel, b, tables_lit(alt), coqlist(items))]
     if case["kind"] == "subtask":
         so = "(mkSubgoal %s %s %s %s)" % (natlist(case["initial_states"]), natlist(case["subgoals"]), vlib.b(case["include"]), oq_lit(case["maxr"]))
         return ["dump_opt (sub_task %s %s) %s %s" % (b, so, nat(n), nat(nA))]
@@ -802,7 +953,8 @@ def run(ctx):
     else:
         k = 1 if tier == "quick" else 8
         cases = [gen_augment(rng, tier) for _ in range(40 * k)] + [gen_subtask(rng, tier) for _ in range(60 * k)] + \
-                [gen_run(rng, tier) for _ in range(70 * k)] + [gen_smdp(rng, tier) for _ in range(70 * k)]
+                [gen_run(rng, tier) for _ in range(70 * k)] + [gen_smdp(rng, tier) for _ in range(70 * k)] + \
+                [gen_used(rng, tier) for _ in range(50 * k)]
     impl = ctx.impl("c15_impl.py", {"cases": cases}, shards=8 if tier == "quick" else 16)["results"]
     ck = Checker(ctx)
     terms, owner = [], []
@@ -830,6 +982,8 @@ def run(ctx):
             ck.check_subtask(case, res, vs[0])
         elif case["kind"] == "run":
             ck.check_run(case, res, vs)
+        elif case["kind"] == "used":
+            ck.check_used(case, res, vs[0])
         else:
             ck.check_smdp(case, res, vs[1:], vs[0])
     holders = {}
@@ -852,7 +1006,9 @@ def run(ctx):
                 "augment: all 32 subsets of the five functional components + 3 list-override subsets per base; subtask: random sub-goal / "
                 "initiation sets, include flag, clip level; run: tabular option policy, termination set, start state, seed, step limits "
                 "{k-1..k+5} around the natural length k plus small absolute limits; smdp: 1..3 options, n in 1..20, include_mdp_actions, "
-                "seed None/int, every option and every primitive action id queried.  distinct = structural hash of the case; non-trivial = all "
+                "seed None/int, every option and every primitive action id queried; used: tabular base touched (state/action lists, transition/"
+                "reward/action matrices, absorbing vector, reachable set, ValueIteration) before 3 augment derivations and one sub_task, derived "
+                "components + tabular views + ValueIteration result compared; half of all other bases are touched first too.  distinct = structural hash of the case; non-trivial = all "
                 "(every base has >= 2 states)",
         "samples": [sample] if sample else [{"case": cases[0]}],
         "cases": len(cases), "cases_by_kind": kinds, "discount_holders": holders, "counters": ck.counts,
